@@ -23,7 +23,7 @@ import RotoV.Model.TcInfer
 import RotoV.Model.TcInferPinned
 import RotoV.Generated.C07Arms
 import RotoV.Lemmas.TcInferUnify
-import RotoV.Lemmas.TcInferSound
+import RotoV.Lemmas.TcInferSoundMain
 
 namespace RotoV.C07
 open RotoV.Typing RotoV.TcRules
@@ -433,5 +433,92 @@ theorem literal_arms_as_modelled : C07Arms.literalArms = TcInferPinned.literalAr
 theorem helper_skeletons_as_modelled : C07Arms.fnSkeletons = TcInferPinned.fnSkeletons := rfl
 
 example : C07Arms.exprArms.length = 20 := by decide
+
+/-! ## T3 `infer_sound` — what the inference pass accepts, the declarative rules accept
+
+  FULL STATEMENT (DESIGN §4 C07 T3): if the model of `TypeChecker::function`
+  (`TcInfer.inferFn`: parameters, body through `TypeChecker::{block, stmt, expr}`
+  with expected-type propagation and unification, then the deferred
+  obligations) accepts a function item, then the declarative checker accepts
+  it — so every script the declarative rules reject is rejected by the model.
+  NOT proved in this form. PROVED (`infer_sound_partial`, by mutual induction
+  over expressions / argument lists / statements / blocks, on top of
+  `unify_equates`): the statement for every function item whose body lies in the
+  fragment `TcInfer.coreB` —
+      literals of all kinds (with and without suffix: integer- and
+      float-literal variables), variables, unary `-` (signed integers, floats,
+      literal variables that thereby become must-be-signed) and `!`, the binary
+      operators `+` (numbers, String + String, List + List) `-` `*` `%`
+      `== != < <= > >= && ||`, `if` with and without `else`, `while`, blocks,
+      `let` with and without annotation, expression statements, calls of
+      functions (argument count and types), `return` / `accept` / `reject` with
+      and without value —
+  under the hypothesis that the store the body check leaves behind HAS A
+  SOLUTION in ground types (`∃ σ, GVal σ ∧ Sat σ st.store`; `TcInfer.satB`
+  decides a proposed solution).
+  MISSING, precisely:
+    (a) outside the fragment: constants, field access, `/` (its `IpAddr / u8`
+        case builds a `Prefix`, which the declarative rules do not have), `for`,
+        method calls, assignment and compound assignment, record literals, list
+        literals, enum / `Option` constructors, `?`, `match`, f-strings (and with
+        them `resolve_obligations`: the theorem speaks about the store BEFORE
+        the obligations are resolved);
+    (b) that a solution of the final store always exists (it does whenever the
+        store is acyclic, which the occurs check maintains — not proved here);
+    (c) constant items and whole programs (`TcInfer.checkProgM`).
+  The model itself is compared with the real checker on every run (all
+  constructs, accept / reject and class of the report). -/
+
+open RotoV.TcInfer in
+/-- **T3 `infer_sound_partial`** (function items, core fragment). -/
+theorem infer_sound_partial (env : Env) (henv : EnvPlain env) (p : Prog) (n : Nat)
+    (params : List (Nat × Ty)) (rt : Ty) (body : Block)
+    (hpp : (params.all fun q => plain q.2) = true) (hpr : plain rt = true) (hcb : coreB body = true)
+    (u : Unit) (st' : St) (h : inferFn env params rt body ⟨[], []⟩ = .ok u st') :
+    ∃ st1, inferFnBody env params rt body ⟨[], []⟩ = .ok () st1 ∧ runObligations env st1 = .ok u st' ∧
+      ((∃ σ : Val, GVal σ ∧ Sat σ st1.store) → checkDecl env p (.fn n params rt body) = .ok ()) := by
+  obtain ⟨st1, h1, h2⟩ := inferFn_split h
+  exact ⟨st1, h1, h2, fun ⟨σ, hσ, hs⟩ => inferFn_sound env henv p n params rt body hpp hpr hcb st1 h1 σ hσ hs⟩
+
+open RotoV.TcInfer in
+/-- … hence a function item the declarative rules reject is not accepted by the
+    model with a solvable store -/
+theorem infer_rejects_what_rules_reject_partial (env : Env) (henv : EnvPlain env) (p : Prog) (n : Nat)
+    (params : List (Nat × Ty)) (rt : Ty) (body : Block)
+    (hpp : (params.all fun q => plain q.2) = true) (hpr : plain rt = true) (hcb : coreB body = true)
+    (hrej : checkDecl env p (.fn n params rt body) ≠ .ok ())
+    (st1 : St) (h : inferFnBody env params rt body ⟨[], []⟩ = .ok () st1) :
+    ¬ ∃ σ : Val, GVal σ ∧ Sat σ st1.store :=
+  fun ⟨σ, hσ, hs⟩ => hrej (inferFn_sound env henv p n params rt body hpp hpr hcb st1 h σ hσ hs)
+
+open RotoV.TcInfer in
+/-- the same for ONE expression checked against an expected type, in any scope
+    and any store: every ground solution of the resulting store solves the
+    store before, and under it the declarative checker gives the expression a
+    type of which the expected type is an instance (and agrees that it diverges
+    whenever the model says so) -/
+theorem infer_expr_sound_partial (env : Env) (henv : EnvPlain env) (e : Expr) (hc : coreE e = true)
+    (cx : Cx) (g : MGamma) (st : St) (d : Bool) (st' : St)
+    (hW : WTs st.store) (hcx : WTcx cx) (hg : WTg g) (h : infer env cx g e st = .ok d st') :
+    WTs st'.store ∧ ∀ σ : Val, GVal σ → Sat σ st'.store → Sat σ st.store ∧
+      ∀ gd, gammaInst gd (denG σ g) = true →
+        ∃ t dd, synth env (denCx σ cx) gd e = .ok (t, dd) ∧ inst t (den σ cx.expected) = true ∧
+          (d = true → dd = true) :=
+  soundE env henv e hc cx g st d st' hW hcx hg h
+
+open RotoV.TcInfer in
+/-- non-vacuity: `fn f(v0: i8) -> i8 { let v1 = 1; -(v0 + v1) }` is accepted by
+    the model, the store it leaves has the solution found by hand (the literal
+    variable is `i8`), and `fn f(v0: u8) -> u8 { -v0 }` is rejected
+    ("cannot apply `-` to unsigned integer type") -/
+example :
+    let body : Block := .mk [.let_ 1 none (.intLit none)] (some (.neg (.bin .add (.var 0) (.var 1))))
+    coreB body = true ∧
+    (match inferFnBody ⟨[], [], []⟩ [(0, .int .i8)] (.int .i8) body ⟨[], []⟩ with
+      | .ok _ st => satB ((List.range st.store.length).map fun _ => Ty.int .i8) st.store
+      | _ => false) = true ∧
+    (match inferFn ⟨[], [], []⟩ [(0, .int .u8)] (.int .u8) (.mk [] (some (.neg (.var 0)))) ⟨[], []⟩ with
+      | .err .negateUnsigned => true
+      | _ => false) = true := by decide +kernel
 
 end RotoV.C07
